@@ -137,9 +137,15 @@ pub enum Chunking {
     Fixed(usize),
     ShortFirst,
     Alternating,
+    /// the first read returns 0 bytes although the stream is not at its end (an empty read before EOF)
+    EmptyFirst,
+    /// every second read returns 0 bytes, the others `k`
+    EmptyEveryOther(usize),
+    /// one empty read when the source is at byte `p`, whole chunks otherwise
+    EmptyAt(usize),
 }
 
-pub const CHUNKINGS: [Chunking; 10] = [
+pub const CHUNKINGS: [Chunking; 14] = [
     Chunking::Whole,
     Chunking::Fixed(1),
     Chunking::Fixed(2),
@@ -150,6 +156,10 @@ pub const CHUNKINGS: [Chunking; 10] = [
     Chunking::ShortFirst,
     Chunking::Alternating,
     Chunking::Fixed(100),
+    Chunking::EmptyFirst,
+    Chunking::EmptyEveryOther(3),
+    Chunking::EmptyAt(4),
+    Chunking::EmptyAt(256),
 ];
 
 pub struct Source<'a> {
@@ -157,6 +167,8 @@ pub struct Source<'a> {
     pos: usize,
     calls: usize,
     eof_returns: usize,
+    /// empty reads handed out before the true end of the stream
+    stalls: usize,
     chunking: Chunking,
 }
 
@@ -179,7 +191,31 @@ impl<'a> Read for Source<'a> {
                     5
                 }
             },
+            Chunking::EmptyFirst => {
+                if self.calls == 0 {
+                    0
+                } else {
+                    usize::MAX
+                }
+            },
+            Chunking::EmptyEveryOther(k) => {
+                if self.calls % 2 == 1 {
+                    0
+                } else {
+                    k
+                }
+            },
+            Chunking::EmptyAt(p) => {
+                if self.pos == p && self.stalls == 0 {
+                    0
+                } else {
+                    usize::MAX
+                }
+            },
         };
+        if want == 0 && self.pos < self.data.len() && !buf.is_empty() {
+            self.stalls += 1;
+        }
         self.calls += 1;
         let n = want.min(buf.len()).min(self.data.len() - self.pos);
         buf[..n].copy_from_slice(&self.data[self.pos..self.pos + n]);
@@ -216,15 +252,18 @@ struct Outcome {
     dead: bool,
     /// (op index in history, description) of the first disagreement
     mismatch: Option<(String, Value)>,
+    /// the adapter reported the end of the data early after the source had returned an empty read
+    early: bool,
 }
 
 /// Rebuild both readers, run the history, compare every step.
 fn execute(stream_id: u8, chunk_id: u8, hist: &[Op]) -> Outcome {
     let data = stream(stream_id as usize);
-    let mut src = Source { data: &data, pos: 0, calls: 0, eof_returns: 0, chunking: CHUNKINGS[chunk_id as usize] };
+    let mut src = Source { data: &data, pos: 0, calls: 0, eof_returns: 0, stalls: 0, chunking: CHUNKINGS[chunk_id as usize] };
     let src_ptr: *const Source = &src;
     let mut mismatch = None;
     let mut dead = false;
+    let mut early = false;
     let mut ref_pos = 0usize;
     let vs;
     {
@@ -243,6 +282,22 @@ fn execute(stream_id: u8, chunk_id: u8, hist: &[Op]) -> Outcome {
                     break;
                 },
                 Ok(got) => {
+                    // A source that returned an empty read before the end of the stream has told the adapter
+                    // (as `std::io::Read` defines it) that the stream is over: from then on an early end-of-data
+                    // answer is legitimate - but never a wrong value, a success the in-memory reader does not
+                    // have, or a panic. Such histories are not extended.
+                    let stalled = unsafe { (*src_ptr).stalls > 0 };
+                    let early_end = stalled
+                        && match (&want, &got) {
+                            (_, Err(e)) if want != got => format!("{:?}", e).contains("UnexpectedEOF"),
+                            (Ok(Val::B(true)), Ok(Val::B(false))) => matches!(op, Op::HasMore),
+                            _ => false,
+                        };
+                    if early_end {
+                        early = true;
+                        dead = true;
+                        break;
+                    }
                     let ok = match (op, &want, &got) {
                         // look-ahead may be optimistic until the end of the stream has been observed
                         (Op::Eor(_), Err(_), Ok(_)) => !eof_seen,
@@ -289,7 +344,7 @@ fn execute(stream_id: u8, chunk_id: u8, hist: &[Op]) -> Outcome {
     }
     let key = (stream_id, chunk_id, src.pos, src.eof_returns.min(2), vs, ref_pos, dead);
     let _ = ref_consumed;
-    Outcome { key, dead, mismatch }
+    Outcome { key, dead, mismatch, early }
 }
 
 fn trunc(r: &R) -> R {
@@ -390,7 +445,7 @@ pub fn run(run: &Arc<Run>) {
                     continue;
                 }
                 out.nontrivial();
-                out.class(if o.dead { "history ends in an error agreed by both readers" } else { "step agreed" });
+                out.class(if o.early { "end of data reported early after the source returned an empty read (allowed; no wrong value, no panic)" } else if o.dead { "history ends in an error agreed by both readers" } else { "step agreed" });
                 succ.push(St { stream: s.stream, chunk: s.chunk, hist: h, key: o.key, dead: o.dead });
             }
             succ
